@@ -1,5 +1,6 @@
 """CL03 rule instances (C13-C19).  The baseline never compiles src/cl03; it is analysed here in the prod-all
 configuration (harness + system-GMP shim), with the same MIR engines as the BBS code."""
+import re
 from framework import Ob, AnchorMissing
 from rf_gates import resolve_fn, rule_accept_requirements, eval_requirement, gate_is_comparison
 from flow import local_target, walk, accept_blocks, MustFlow, callee_matches
@@ -67,8 +68,52 @@ def rule_e_loop_exit(ctx, cfg='prod-all'):
         loops = b.natural_loops()
         # exit conditions: switches inside a loop that contains a random_prime call, having an edge that leaves the loop towards tgt
         found = {'gt': False, 'lt': False, 'gcd': False}
+        sense = {'gt': False, 'lt': False, 'gcd': False}       # the same tests, *holding* on the edge that leaves the search
         prime_in_loop = False
         from flow import classify_switch
+
+        def judge(g2, names_of, target):
+            """one test with a known outcome: which of the three conditions it establishes"""
+            w = (g2.what or '').split('::')[-1]
+            if g2.truth is None or len(g2.operands) != 2:
+                return
+            t = g2.truth
+            sides = [names_of(o) for o in g2.operands]
+            drawn = [any(n.endswith('thread_rng') for n in sd) for sd in sides]
+            if w in ('cmp', 'partial_cmp') and g2.const_ops:
+                c = str(g2.const_ops[-1])
+                w = 'gt' if 'Greater' in c else 'lt' if 'Less' in c else 'eq' if 'Equal' in c else w
+            rel = {'gt': '>', 'ge': '>', 'lt': '<', 'le': '<', 'Gt': '>', 'Ge': '>', 'Lt': '<', 'Le': '<'}.get(w)
+            if rel and drawn[0] != drawn[1]:
+                strict_flip = {'>': '<', '<': '>'}
+                if not t:
+                    rel = strict_flip[rel]
+                if drawn[1]:
+                    rel = strict_flip[rel]
+                bound = sides[1] if drawn[0] else sides[0]
+                if 'le' in bound:
+                    target['gt' if rel == '>' else 'lt'] = True
+            if w in ('eq', 'Eq', 'ne', 'Ne'):
+                holds = t if w in ('eq', 'Eq') else (not t)
+                alln = sides[0] | sides[1]
+                if holds and any(n.startswith('sk.p') for n in alln) and any(n.startswith('sk.q') for n in alln) and 'c:1' in alln:
+                    target['gcd'] = True
+                if holds and g2.kind == 'cmp' and 'le' in alln and not any(n.startswith('sk.') for n in alln):
+                    target['gt'] = target['lt'] = True      # bit length of e == le
+
+        def edge_gates(lb, lfd, x, s_):
+            out = []
+            t_ = lb.blocks[x]['term']
+            if t_['k'] == 'switch':
+                g = classify_switch(eng, lfd, x)
+                g.edge = (x, s_)
+                g.dom = True
+                zero_t = [b_ for v_, b_ in t_['targets'] if v_ == '0']
+                if zero_t and len(t_['targets']) == 1 and zero_t[0] != t_['otherwise']:
+                    raw = (s_ != zero_t[0])
+                    g.truth = (not raw) if g.negated else raw
+                out.extend(ga._flatten(g))
+            return out
         # the search loop sits in this body or in a helper of the module that hands the exponent back (`fresh_exponent(&phi_n)`); its exit
         # conditions are read in the terms of the entry point
         for fr in walk(eng, entry.path, max_depth=4, include_closures=False):
@@ -82,6 +127,41 @@ def rule_e_loop_exit(ctx, cfg='prod-all'):
                 if not has_prime:
                     continue
                 prime_in_loop = True
+                # what holds when the search is left: the test on the leaving edge and the tests that edge is reached through
+                leaving = [(x, s_) for x in sorted(blocks) for s_ in lb.succ[x] if s_ not in blocks and not lb.diverges(s_) and not lb.blocks[s_]['cleanup']]
+                per_edge = []
+                for x, s_ in leaving:
+                    egs = edge_gates(lb, lfd, x, s_)
+                    # the tests passed earlier in the last round: a switch of the loop that dominates the leaving block, one of whose sides
+                    # cannot get there without starting another round
+                    def within_round(frm):
+                        seen_, st_ = set(), [frm]
+                        while st_:
+                            y = st_.pop()
+                            if y in seen_ or y not in blocks or y == h:
+                                continue
+                            seen_.add(y)
+                            st_.extend(lb.succ[y])
+                        return seen_
+                    for a in sorted(blocks):
+                        if a == x or lb.blocks[a]['term']['k'] != 'switch' or not lb.dominates(a, x):
+                            continue
+                        sides = [y for y in dict.fromkeys(lb.succ[a]) if y == x or x in within_round(y)]
+                        if len(sides) == 1:
+                            egs.extend(edge_gates(lb, lfd, a, sides[0]))
+                    tgt_sense = {'gt': False, 'lt': False, 'gcd': False}
+                    for g_ in egs:
+                        alts = [g_]
+                        if g_.kind == 'deleg' and g_.callee in prog.bodies and g_.truth is not None:
+                            alts = []
+                            for alt in ga._lift_paths(lfd, g_.callee, g_.args, True, (lb.path,), want=bool(g_.truth), targs=g_.targs) or []:
+                                alts.extend(alt)
+                        for g3 in alts:
+                            judge(g3, lambda o: {fmt_atom(entry, a) for a in fr.lift(o)}, tgt_sense)
+                    per_edge.append(tgt_sense)
+                if per_edge:
+                    for k_ in sense:
+                        sense[k_] = sense[k_] or all(pe[k_] for pe in per_edge)
                 for x in blocks:
                     t = lb.blocks[x]['term']
                     if t['k'] != 'switch':
@@ -145,6 +225,7 @@ def rule_e_loop_exit(ctx, cfg='prod-all'):
                     g0 = _classify_value(eng, pfd, {'l': 0}, 0, None, 0)
                     g0.truth = True
                     for g2 in ga._flatten(g0):
+                        judge(g2, lambda o: {fmt_atom(entry, a) for a in cf.lift(o)}, sense)
                         w = g2.what or ''
                         names = {fmt_atom(entry, a) for a in cf.lift(g2.all_atoms())}
                         if ('PartialOrd::gt' in w or 'PartialOrd::ge' in w) and 'le' in names:
@@ -169,6 +250,11 @@ def rule_e_loop_exit(ctx, cfg='prod-all'):
         yield Ob('RF-Q', '%s#e-loop-exit' % entry.path, ok,
                  'the issued exponent leaves the generate-and-test loop only when 2^(le-1) < e < 2^le and gcd(e, phi(N)) == 1, and comes from random_prime(le)',
                  entry.span, fact={'loop_in': b.path.split('::')[-1], 'loop_with_random_prime': prime_in_loop, 'exit_tests': found, 'e_from_random_prime_le': e_ok}, expected='all true')
+        # the sense of the tests: on every edge that leaves the search each of them *holds* (`== false` turned into `!= false`, `gcd != 1`, a
+        # conjunction turned into a disjunction keep all three tests in the loop and leave it with a wrong exponent, or never)
+        yield Ob('RF-Q', '%s#e-loop-exit-sense' % entry.path, all(sense.values()),
+                 'each of the three tests holds on every edge that leaves the search: e above a bound in le, e below a bound in le, gcd(e, phi(N)) equal to 1',
+                 entry.span, fact={'holding_on_exit': sense}, expected='all true')
 
 
 # ---------------------------------------------------------------------------------- C14
@@ -193,6 +279,193 @@ def rule_issuing_functions_gated(ctx, cfg='prod-all', scope=('cl03::blind::',)):
                  'a function that signs a commitment handed in from outside with the secret key checks a proof of knowledge for that commitment first',
                  b.span, fact={'commitment_parameters': [b.local_name(k) for k in kc], 'calls_verify_proof': gated}, expected='verify_proof before the key is used')
     yield Ob('RF-D', 'cl03#issuing-functions', n >= 2, 'issuing functions (secret key + commitment) examined', '', fact=n, expected='>= 2', nontrivial=False)
+
+
+def rule_secure_pow_exponents(ctx, cfg='prod-all', scope=('cl03::', 'utils::random')):
+    """`Integer::secure_pow_mod*` (rug) panics unless the exponent is greater than zero.  Where the crate uses it the exponent has to be positive
+    by construction: a positive literal, or a draw with its top bit set (`random_bits`, `random_prime`).  An exponent that comes from an argument -
+    an attribute, a response - can be zero or negative: an honest call (an attribute 0) then panics.  (`pow_mod*` takes any exponent and is not
+    looked at here.)"""
+    prog, eng = ctx.prog(cfg), ctx.eng(cfg)
+    n = 0
+    for p, b in sorted(prog.bodies.items()):
+        if b.from_expansion or not p.startswith(scope):
+            continue
+        fd = eng.fndep(p)
+        k_site = 0
+        for bi, t in b.calls():
+            cal = t.get('callee') or ''
+            if not cal.startswith('rug::Integer::secure_pow_mod') or len(t['args']) < 2:
+                continue
+            n += 1
+            at = fd.read_op(t['args'][1])
+            consts = [a[1] for a in at if a[0] == 'c']
+            outside = sorted(fmt_atom(b, a) for a in at if strip(a)[0] in ('p', 's') or (a[0] == 'o' and not a[1].endswith('thread_rng')))
+            drawn = any(a[0] == 'o' and a[1].endswith('thread_rng') for a in at)
+            positive_literal = bool(consts) and all(str(c).lstrip('-').isdigit() and int(c) > 0 for c in consts) and not drawn
+            top_bit = drawn and any((local_target(eng, t2) or '').endswith(('random_bits', 'random_prime')) for _, t2 in b.calls())
+            # a modular inverse (`invert*`: 0 < x^-1 < modulus) is positive whatever it was computed from
+            inverse = False
+            l_ = t['args'][1]['pl']['l'] if t['args'][1].get('k') in ('copy', 'move') else None
+            for _ in range(8):
+                ds_ = fd.defs.get(l_, []) if l_ is not None else []
+                if len(ds_) != 1:
+                    break
+                kd, _b, x = ds_[0]
+                if kd == 'assign' and x['rv'].get('k') in ('use', 'cast') and x['rv']['op'].get('k') in ('copy', 'move'):
+                    l_ = x['rv']['op']['pl']['l']
+                elif kd == 'assign' and x['rv'].get('k') == 'ref':
+                    l_ = x['rv']['pl']['l']
+                elif kd == 'call' and (x.get('callee') or '').split('::')[-1] in ('invert', 'invert_ref'):
+                    inverse = True
+                    break
+                elif kd == 'call' and (x.get('callee') or '').endswith(('From::from', '::unwrap', '::expect', 'Into::into', 'Clone::clone', 'Complete::complete')) \
+                        and x['args'] and x['args'][0].get('k') in ('copy', 'move'):
+                    l_ = x['args'][0]['pl']['l']
+                else:
+                    break
+            ok = inverse or (not outside and (positive_literal or top_bit))
+            yield Ob('RF-F', '%s#secure-pow-exponent:%d' % (p, k_site), ok,
+                     'the exponent of secure_pow_mod is positive by construction (a positive literal or a draw with its top bit set): the function panics otherwise',
+                     '%s L%s' % (b.file(), t.get('line')), fact={'exponent_from': fmt_atoms(b, at)[:6], 'from_arguments': outside[:4]}, expected='literal > 0 or random_bits / random_prime')
+            k_site += 1
+    yield Ob('RF-F', 'cl03#secure-pow-sites', n >= 1, 'calls of secure_pow_mod examined', '', fact=n, expected='>= 1', nontrivial=False)
+
+
+PAYLOAD_ADAPTERS = ('::map', '::and_then', '::map_or', '::map_or_else', '::inspect', '::into_iter', '::iter', '::unwrap_or', '::unwrap_or_default', '::unwrap_or_else')
+
+
+def optional_payload_skips(prog, eng, b, k, _depth=0):
+    """Which conditions decide whether the payload of the optional parameter k is used?
+    S = the blocks that consume the payload (a call that takes the unwrapped value, or an adapter of Option applied to the parameter).  A switch
+    *decides* when one of its successors can reach a normal return without S while another one cannot return without passing through S.
+    Returns (S, [(switch block, atoms of its operand)]) - the caller says which atoms a deciding condition may read."""
+    fd = eng.fndep(b.path)
+    UNWRAPS = ('::unwrap', '::expect', '::as_ref', '::as_deref', '::copied', '::cloned', '::unwrap_unchecked', 'Deref::deref', 'Clone::clone',
+               'IntoIterator::into_iter', 'Option::<T>::iter', 'Iterator::next')
+
+    def is_param(l, depth=0):
+        """the local is the parameter, a part of it, or what an unwrapping call makes of it (not a value computed from it)"""
+        if l == k:
+            return True
+        if depth > 8:
+            return False
+        ds = fd.defs.get(l, [])
+        if len(ds) != 1:
+            return False
+        kind, _, x = ds[0]
+        if kind == 'assign':
+            rv = x['rv']
+            if rv.get('k') in ('use', 'cast') and rv['op'].get('k') in ('copy', 'move'):
+                src = rv['op']['pl']
+                # a member of a tuple the parameter was put into (`match (revealed, positions) { (Some(m), ..) => .. }`)
+                fld = [pj for pj in src.get('p') or [] if pj.get('k') == 'field']
+                td = [y for kd, _, y in fd.defs.get(src['l'], []) if kd == 'assign']
+                if fld and len(td) == 1 and td[0]['rv'].get('k') == 'agg' and td[0]['rv'].get('ak') == 'tuple':
+                    ops = td[0]['rv'].get('ops') or []
+                    i = fld[0].get('i')
+                    return i is not None and i < len(ops) and ops[i].get('k') in ('copy', 'move') and is_param(ops[i]['pl']['l'], depth + 1)
+                return is_param(src['l'], depth + 1)
+            if rv.get('k') == 'ref':
+                return is_param(rv['pl']['l'], depth + 1)
+            return False
+        if kind == 'call':
+            cal = x.get('callee') or ''
+            a0 = (x.get('args') or [None])[0]
+            return bool(a0) and cal.endswith(UNWRAPS) and a0.get('k') in ('copy', 'move') and is_param(a0['pl']['l'], depth + 1)
+        return False
+
+    S = set()
+    inner = []
+    for bi, t in b.calls():
+        cal = t.get('callee') or ''
+        if cal.endswith(UNWRAPS):
+            continue
+        for i, a in enumerate(t['args']):
+            if a.get('k') not in ('copy', 'move') or not is_param(a['pl']['l']):
+                continue
+            ty = b.local_ty(a['pl']['l']) if not a['pl'].get('p') else ''
+            wrapped = ty.startswith(('std::option::Option<', '&std::option::Option<'))
+            if not wrapped:
+                S.add(bi)
+                continue
+            if i == 0 and 'Option' in cal and cal.endswith(PAYLOAD_ADAPTERS):
+                S.add(bi)
+                # the payload goes to a closure (`revealed.map(|m| ..)`): what the closure does with it is judged the same way
+                for a2 in t['args'][1:]:
+                    cb = None
+                    if a2.get('k') in ('copy', 'move') and not a2['pl'].get('p'):
+                        for kd, _, y in fd.defs.get(a2['pl']['l'], []):
+                            if kd == 'assign' and y['rv'].get('k') == 'agg' and y['rv'].get('ak') == 'closure':
+                                cb = prog.bodies.get(y['rv'].get('name'))
+                    if cb is not None and _depth < 4:
+                        cS, cdec = optional_payload_skips(prog, eng, cb, 2, _depth + 1)
+                        if not cS:
+                            S.discard(bi)
+                        inner.extend(cdec)
+                continue
+            # the optional value is handed on as it is to a function of the crate: that function decides (its conditions are reported with it)
+            tgt = local_target(eng, t)
+            if tgt and tgt in prog.bodies and _depth < 4 and prog.bodies[tgt].kind != 'Closure' and i + 1 <= prog.bodies[tgt].arg_count:
+                cS, cdec = optional_payload_skips(prog, eng, prog.bodies[tgt], i + 1, _depth + 1)
+                if cS:
+                    S.add(bi)
+                    inner.extend(cdec)
+    rets = [bi for bi, blk in enumerate(b.blocks) if blk['term']['k'] == 'return' and not blk['cleanup']]
+    # blocks from which a return is reachable without entering S
+    skip = set()
+    st = [r for r in rets if r not in S]
+    while st:
+        x = st.pop()
+        if x in skip:
+            continue
+        skip.add(x)
+        for pr in b.pred[x]:
+            if pr not in S and pr not in skip:
+                st.append(pr)
+    # blocks from which a return is reachable at all
+    live = set()
+    st = list(rets)
+    while st:
+        x = st.pop()
+        if x in live:
+            continue
+        live.add(x)
+        st.extend(pr for pr in b.pred[x] if pr not in live)
+    deciding = []
+    for bi, blk in enumerate(b.blocks):
+        t = blk['term']
+        if t['k'] != 'switch' or blk['cleanup']:
+            continue
+        succ = [x for x in b.succ[bi] if x in live]
+        if any(x in skip for x in succ) and any(x not in skip for x in succ):
+            deciding.append((b, k, bi, fd.read_op(t['discr']) if t['discr'].get('k') in ('copy', 'move') else set()))
+    return S, deciding + inner
+
+
+def rule_optional_attributes_used(ctx, cfg='prod-all', scope=('cl03::blind::',), ptype='std::option::Option<&[utils::message::cl03_message::CL03Message]>'):
+    """An issuing function that is handed the revealed attributes as an optional list uses them whenever they are there: the only condition that
+    may lead past their use to a returned signature is the absence of the list itself.  (`if revealed.is_some() && positions.is_some()` drops the
+    attributes silently when the positions are left to the default - the signature returned is one on other attributes.)"""
+    prog, eng = ctx.prog(cfg), ctx.eng(cfg)
+    n = 0
+    for p, b in sorted(prog.bodies.items()):
+        if b.from_expansion or b.kind == 'Closure' or not p.startswith(scope) or not b.is_pub:
+            continue
+        for k in range(1, b.arg_count + 1):
+            if b.local_ty(k) != ptype:
+                continue
+            n += 1
+            S, deciding = optional_payload_skips(prog, eng, b, k)
+            foreign = []
+            for db, dk, bi, at in deciding:
+                other = sorted(set(fmt_atom(db, a) for a in at if not (strip(a)[0] == 'p' and strip(a)[1] == dk) and strip(a)[0] != 'c'))
+                if other:
+                    foreign.append({'fn': db.path.split('::')[-1], 'line': db.blocks[bi]['term'].get('line'), 'reads': other[:6]})
+            yield Ob('RF-D', '%s#uses:%s' % (p, b.local_name(k)), bool(S) and not foreign,
+                     'the attributes handed in are used whenever they are present (nothing but their absence leads past their use)', b.span,
+                     fact={'uses': len(S), 'deciding_conditions': len(deciding), 'conditions_on_other_inputs': foreign}, expected='only the presence of the list decides')
+    yield Ob('RF-D', 'cl03#optional-attribute-lists', n >= 2, 'issuing functions with an optional attribute list examined', '', fact=n, expected='>= 2', nontrivial=False)
 
 
 def rule_blind_sign_gated(ctx, cfg='prod-all'):
@@ -241,9 +514,10 @@ def rule_blind_sign_gated(ctx, cfg='prod-all'):
         gs = ga.block_gates(fd, u)
         good = False
         for g in gs:
-            if g.kind == 'deleg' and (g.callee or '').endswith('verify_proof'):
+            # the block runs on the edge where the verifier said *true* (`if zkpok.verify_proof(..) { panic }` has the gate, with the wrong sense)
+            if g.kind == 'deleg' and (g.callee or '').endswith('verify_proof') and g.truth is True and not g.negated:
                 good = True
-        if not good:
+        if not good and not any(g.kind == 'deleg' and (g.callee or '').endswith('verify_proof') for g in gs):
             # dominated by the continuation of the `if !verify { panic }` (the panic arm does not return)
             dom_edges = [(sw, su) for sw in range(b.n) if b.blocks[sw]['term']['k'] == 'switch' for su in b.succ[sw]
                          if b.dominates(su, u) and all(p == sw or b.dominates(su, p) for p in b.pred[su])]
@@ -1148,6 +1422,25 @@ def _order_sides(g, kself):
     return (zero, bound)
 
 
+def _truncating_rem_of(prog, eng, g):
+    """is the residue this comparison looks at made with the truncating remainder (`%`, `%=`)?  Read off the backward slice of the condition in
+    the function the comparison stands in."""
+    from rf_bits import _slice_callees
+    b = prog.bodies.get(g.fn)
+    if b is None or g.block is None or g.block >= len(b.blocks):
+        return False
+    t = b.blocks[g.block]['term']
+    if t['k'] == 'switch' and t['discr'].get('k') in ('copy', 'move'):
+        ops = [t['discr']]
+    else:
+        # a predicate that hands its verdict back (`|x| x % n == *x`): the comparison calls of the body
+        ops = [a for bi, t2 in b.calls() if (t2.get('callee') or '') == (g.what or '') for a in t2['args']]
+        if not ops:
+            return False
+    names = _slice_callees(b, eng.fndep(g.fn), ops)
+    return bool(names & {'rem', 'rem_assign'}) and not (names & {'rem_euc', 'rem_floor', 'modulo', 'modulo_ref', 'modulo_mut', 'abs', 'abs_ref', 'is_negative', 'signum', 'cmp0'})
+
+
 def rule_canonical_representatives(ctx, specs, cfg='prod-all', rule='RF-K', skip=()):
     """A transmitted integer that stands for a residue class (it only ever enters `pow_mod` bases, `% n`, inversions) can be replaced by
     any other representative (x + k*n) unless the verifier also looks at the integer itself.  Per leaf x of the proof / signature type and per
@@ -1179,6 +1472,18 @@ def rule_canonical_representatives(ctx, specs, cfg='prod-all', rule='RF-K', skip
                     continue
                 side = _order_sides(g, kself)
                 ring = set()
+                # `x % n == x`: a leaf compared with its own residue.  rug's `%` truncates (the remainder keeps the sign of x), so the test holds
+                # for x - n as well when x > 0: it bounds |x| from above and says nothing about the sign.  (`rem_euc` / `modulo` give one value
+                # per class: a full pin.)
+                own_residue = set()
+                if side is None and len(g.operands) == 2:
+                    for i_ in (0, 1):
+                        if any(label_of(a) == 'H' for a in g.operands[i_]):
+                            continue      # a digest on that side: the leaf is compared with a hash value, not with its residue
+                        reduced = {lp for a in g.operands[i_] if label_of(a) == 'M' for lp in _leaf_of(a, kself, leaves)}
+                        plain = {lp for a in g.operands[1 - i_] if label_of(a) == 'R' for lp in _leaf_of(a, kself, leaves)}
+                        if (reduced & plain) and _truncating_rem_of(prog, ga.eng, g):
+                            own_residue |= (reduced & plain)
                 for a in g.all_atoms():
                     lab = label_of(a)
                     if lab == 'M':
@@ -1192,6 +1497,8 @@ def rule_canonical_representatives(ctx, specs, cfg='prod-all', rule='RF-K', skip
                                 below.add(lp)
                             if side[1]:
                                 above.add(lp)
+                        elif lab == 'R' and lp in own_residue:
+                            above.add(lp)
                         elif lab == 'R':
                             ring.add(lp)
                         else:
@@ -2012,6 +2319,83 @@ def rule_tolerance_exponent(ctx, cfg='prod-all'):
         yield Ob('RF-Q', '%s#tolerance-root' % entry, len(roots) >= 1 and all(x[1] and x[2] for x in roots),
                  'the square root in the tolerance term is taken of the width b - a (an operand computed from both bounds)', eb.span,
                  fact=[{'site': w, 'depends_on_a': da, 'depends_on_b': db} for w, da, db in roots][:4], expected='both bounds')
+
+
+def rule_tolerance_parameter(ctx, cfg='prod-all'):
+    """T = 2(t + l + 1) + |b - a| with |b - a| the *bit length* of the width (Boudot 2000, 3.1.2): the tolerance 2^(t+l+T/2+1) sqrt(b - a) stays below
+    2^T only because the bit length exceeds log2(b - a) for every width - `ceil(log2)` (`next_power_of_two().significant_bits() - 1`, `bits - 1`)
+    equals it for powers of two, and then a - 1 and b + 1 are inside the enlarged interval.  Wherever the range-proof code reachable from `prove`
+    and from `verify` adds a bit length to something (the expression may sit in the function, in a helper of the module or in a struct literal):
+    the sum is the constant 2(t + l + 1), for the module's own t and l, plus `significant_bits` of a difference of two arguments, nothing else."""
+    from flow import walk
+    from rf_bits import _slice_callees
+    prog, eng, za = ctx.prog(cfg), ctx.eng(cfg), ctx.zone(cfg)
+    # the module's t and l
+    tl = {}
+    for p, b in prog.bodies.items():
+        if not p.startswith('cl03::range_proof::'):
+            continue
+        for blk in b.blocks:
+            ops = []
+            for st in blk['stmts']:
+                rv = st.get('rv') or {}
+                ops += [rv.get('op'), rv.get('a'), rv.get('b')] + list(rv.get('ops') or [])
+            if blk['term']['k'] == 'call':
+                ops += blk['term']['args']
+            for o in ops:
+                if isinstance(o, dict) and o.get('k') == 'const' and 'int' in o:
+                    nm = str(o.get('uneval_full') or o.get('uneval') or o.get('disp') or '')
+                    for k in ('t', 'l'):
+                        if nm.endswith('Boudot2000RangeProof::' + k):
+                            tl[k] = int(o['int'])
+    if set(tl) != {'t', 'l'}:
+        raise AnchorMissing('constants t and l of Boudot2000RangeProof')
+    want = 2 * (tl['t'] + tl['l'] + 1)
+
+    def num(x):
+        if re.fullmatch(r'[0-9+*() -]+', x or ''):
+            try:
+                return int(eval(x))
+            except Exception:
+                return None
+        return None
+    n = 0
+    for entry in (RP + 'prove', RP + 'verify'):
+        if entry not in prog.bodies:
+            raise AnchorMissing(entry)
+        sites = []
+        for fr in walk(eng, entry, include_closures=False):
+            if not fr.path.startswith('cl03::range_proof::'):
+                continue
+            b = fr.body
+            za.summary(fr.path)
+            zf, fd = za.zf(fr.path), fr.fd
+            best = None
+            for l_ in range(len(b.locals)):
+                d = zf.single_def(l_)
+                if not d or d[0] != 'assign' or d[2]['rv'].get('k') != 'binop' or 'Add' not in d[2]['rv'].get('op', ''):
+                    continue
+                sh = _shape(zf, {'k': 'copy', 'pl': {'l': l_}}, 0)
+                if any('significant_bits(' in a for a in sh) and (best is None or len(sh) > len(best)):
+                    best = sh
+            if best is None:
+                continue
+            consts = [num(a) for a in best if num(a) is not None]
+            rest = [a for a in best if num(a) is None]
+            okc = sum(consts) == want
+            okw = len(rest) == 1 and re.fullmatch(r'significant_bits\([^()]*\)', rest[0]) is not None
+            width_ok = False
+            for bi2, t2 in b.calls():
+                if (t2.get('callee') or '').endswith('significant_bits') and t2['args']:
+                    ps = {strip(a)[1] for a in fd.read_op(t2['args'][0]) if strip(a)[0] == 'p'}
+                    names = _slice_callees(b, fd, t2['args'][:1])
+                    width_ok = len(ps) == 2 and names <= {'sub', 'complete', 'from', 'clone', 'deref', 'borrow', 'into', 'abs'} and 'sub' in names
+            sites.append({'in': fr.path.split('::')[-1], 'addends': best, 'constant_part_is_2(t+l+1)': okc, 'one_bit_length_addend': okw, 'taken_of_a_difference_of_two_arguments': width_ok})
+        n += len(sites)
+        ok = bool(sites) and all(s_['constant_part_is_2(t+l+1)'] and s_['one_bit_length_addend'] and s_['taken_of_a_difference_of_two_arguments'] for s_ in sites)
+        yield Ob('RF-Q', '%s#T' % entry, ok, 'T = 2(t + l + 1) + bit length of (b - a)', prog.bodies[entry].span,
+                 fact={'t': tl['t'], 'l': tl['l'], 'sites': sites[:3]}, expected='%d + significant_bits(rmax - rmin)' % want)
+    yield Ob('RF-Q', 'cl03::range_proof#T-sites', n >= 2, 'places where a bit length is added to the tolerance constant (seen from prove and from verify)', '', fact=n, expected='>= 2', nontrivial=False)
 
 
 # ---------------------------------------------------------------------------------- C16: the honest prover refuses values outside the interval
